@@ -198,6 +198,136 @@ func (r *runner) evalTape(w *worker, tape []uint64, log bool) (vs []sim.Violatio
 	return resp.Result.Violations, resp.Result, nil
 }
 
+// ---------------------------------------------------------------- order independence
+
+// A run must be a function of its tape: what earlier runs did in the same worker process must not
+// matter. The harness resets the library's own process-wide state between runs through its hooks
+// (pools, struct field cache), and the determinism self-test shows that this suffices on the
+// unchanged library. State the simulator does not know about - a package-level cache, memo or pool -
+// survives from run to run, and the in-run oracles cannot see it (a run and its own alone-run are
+// polluted alike). So a sample of the sweep's runs, each of which ran after several others in a
+// long-lived worker, is replayed alone in a fresh process, and the event logs (every call, its
+// output and error) are compared.
+type orderSample struct {
+	run    int64
+	tape   []uint64
+	hash   string
+	before []int64
+}
+
+type orderDiff struct {
+	orderSample
+	aloneHash string
+}
+
+func (r *runner) orderCheck(samples []orderSample, nw int) (checked int, diffs []orderDiff) {
+	var mu sync.Mutex
+	var wg sync.WaitGroup
+	next := int64(-1)
+	for i := 0; i < nw; i++ {
+		wg.Add(1)
+		go func() {
+			defer wg.Done()
+			for {
+				k := atomic.AddInt64(&next, 1)
+				if k >= int64(len(samples)) {
+					return
+				}
+				sm := samples[k]
+				_, res, err := r.evalAfter(r.bin, false, nil, sm.tape, false)
+				if err != nil || res == nil {
+					continue
+				}
+				mu.Lock()
+				checked++
+				if res.EventHash != sm.hash {
+					diffs = append(diffs, orderDiff{sm, res.EventHash})
+				}
+				mu.Unlock()
+			}
+		}()
+	}
+	wg.Wait()
+	sort.Slice(diffs, func(i, j int) bool { return diffs[i].run < diffs[j].run })
+	return
+}
+
+// orderConfirm: the run alone (fresh process, twice) gives one log; after a prelude of earlier runs
+// it gives another. The prelude is minimised and written into the replay file.
+func (r *runner) orderConfirm(d orderDiff, tier string) (*replayFile, string, error) {
+	_, a1, e1 := r.evalAfter(r.bin, false, nil, d.tape, true)
+	_, a2, e2 := r.evalAfter(r.bin, false, nil, d.tape, true)
+	if e1 != nil || e2 != nil || a1 == nil || a2 == nil || a1.EventHash != a2.EventHash {
+		return nil, "", fmt.Errorf("the run is not stable alone")
+	}
+	w, err := startWorker(r.bin, false, 0)
+	if err != nil {
+		return nil, "", err
+	}
+	var tapes [][]uint64
+	for _, run := range d.before {
+		resp, ci, e := w.do(r.request(run), time.Duration(r.cfg.TimeoutS)*time.Second)
+		if e != nil || ci != nil || resp == nil || resp.Result == nil {
+			continue
+		}
+		tapes = append(tapes, resp.Result.Tape)
+	}
+	w.stop()
+	differs := func(prelude [][]uint64) *sim.Result {
+		for attempt := 0; attempt < 2; attempt++ {
+			_, res, err := r.evalAfter(r.bin, false, prelude, d.tape, true)
+			if err == nil && res != nil && res.EventHash != a1.EventHash {
+				return res
+			}
+		}
+		return nil
+	}
+	var prelude [][]uint64
+	var after *sim.Result
+	for n := 1; ; n *= 2 {
+		if n > len(tapes) {
+			n = len(tapes)
+		}
+		if res := differs(tapes[len(tapes)-n:]); res != nil {
+			prelude, after = append([][]uint64(nil), tapes[len(tapes)-n:]...), res
+			break
+		}
+		if n == len(tapes) {
+			return nil, "", fmt.Errorf("no difference after replaying the %d earlier runs of its worker", len(tapes))
+		}
+	}
+	for i := 0; i < len(prelude) && len(prelude) > 1; {
+		cand := append(append([][]uint64(nil), prelude[:i]...), prelude[i+1:]...)
+		if res := differs(cand); res != nil {
+			prelude, after = cand, res
+		} else {
+			i++
+		}
+	}
+	// first differing event
+	diffLine := ""
+	for i := 0; i < len(a1.Log) || i < len(after.Log); i++ {
+		x, y := "(nothing)", "(nothing)"
+		if i < len(a1.Log) {
+			x = a1.Log[i]
+		}
+		if i < len(after.Log) {
+			y = after.Log[i]
+		}
+		if x != y {
+			diffLine = fmt.Sprintf("first differing event (#%d):\n  alone:              %s\n  after earlier runs: %s", i+1, sim.Clip(x, 400), sim.Clip(y, 400))
+			break
+		}
+	}
+	rep := &replayFile{Property: r.prop, Engine: r.cfg.Engine, Tier: tier, Seed: r.seed, Run: d.run,
+		Oracle: "order-independence", Key: "run-depends-on-earlier-runs-in-the-process",
+		Detail: fmt.Sprintf("the same run (same tape: same templates, data, history, faults) behaves differently alone in a fresh process (event log %s) than after %d earlier run(s) in the same process (event log %s): the library keeps process-wide state that earlier executions leave behind and later ones read.\n%s", a1.EventHash, len(prelude), after.EventHash, diffLine),
+		Tape:   d.tape, Prelude: prelude, Sample: a1.Sample,
+		Shrink: fmt.Sprintf("(prelude minimised %d->%d earlier runs)", len(tapes), len(prelude))}
+	path, err := writeReplay(r, rep, d.run)
+	return rep, path, err
+}
+
 // evalAfter starts a fresh worker, replays the prelude tapes in it and then the tape.
 func (r *runner) evalAfter(bin string, race bool, prelude [][]uint64, tape []uint64, log bool) ([]sim.Violation, *sim.Result, error) {
 	w, err := startWorker(bin, race, 0)
@@ -615,11 +745,25 @@ func cmdCheck(args []string) int {
 	agg := newAggregate()
 	cands := map[string]*candidate{}
 	var candOrder []string
+	var orderSamples []orderSample
 	sink := func(o outcome) {
 		var vs []sim.Violation
 		if o.crash != nil {
 			vs = []sim.Violation{interpretCrash(o.crash)}
 			agg.crashes++
+		}
+		if o.res != nil && cfg.OrderSample > 0 && !o.race && len(o.before) >= 4 && len(o.res.Violations) == 0 && o.res.Invalid == "" {
+			want := cfg.OrderSample
+			if *tier == "thorough" {
+				want *= 10
+			}
+			stride := runs / int64(want)
+			if stride < 1 {
+				stride = 1
+			}
+			if o.run%stride == 0 && len(orderSamples) < want {
+				orderSamples = append(orderSamples, orderSample{run: o.run, tape: o.res.Tape, hash: o.res.EventHash, before: o.before})
+			}
 		}
 		if o.res != nil {
 			if o.dur > agg.slowest {
@@ -666,6 +810,27 @@ func cmdCheck(args []string) int {
 		raceDone, err = r.sweep(raceRuns, nw, true, time.Now().Add(cap), sink)
 		if err != nil {
 			fatal2("%v", err)
+		}
+	}
+	var orderFindings []*replayFile
+	var orderPaths []string
+	if len(orderSamples) > 0 {
+		checked, diffs := r.orderCheck(orderSamples, nw)
+		agg.stats["counters:order_independence_runs_replayed_alone_in_fresh_processes"] = int64(checked)
+		for _, d := range diffs {
+			if len(orderFindings) >= 2 {
+				break
+			}
+			rep, path, err := r.orderConfirm(d, *tier)
+			if err != nil {
+				fmt.Printf("simdriver: run %d behaved differently alone than after earlier runs, but that did not reproduce: %v\n", d.run, err)
+				continue
+			}
+			orderFindings = append(orderFindings, rep)
+			orderPaths = append(orderPaths, path)
+		}
+		if len(diffs) > 0 && len(orderFindings) == 0 {
+			fatal2("%d sampled run(s) behaved differently alone than in the sweep and none of it reproduced (nondeterminism in the machinery or in the library)", len(diffs))
 		}
 	}
 	exploreS := time.Since(exploreStart).Seconds()
@@ -736,6 +901,13 @@ func cmdCheck(args []string) int {
 		if rep.Sample != "" {
 			violLines = append(violLines, "  case: "+strings.ReplaceAll(sim.Clip(rep.Sample, 1500), "\n", "\n  "))
 		}
+	}
+	for i, rep := range orderFindings {
+		reported++
+		exit = 1
+		violLines = append(violLines, fmt.Sprintf("VIOLATION property=%s replay=%s", prop, orderPaths[i]))
+		violLines = append(violLines, fmt.Sprintf("  oracle=%s key=%s seed=%d run=%d tape_len=%d %s", rep.Oracle, rep.Key, *seed, rep.Run, len(rep.Tape), rep.Shrink))
+		violLines = append(violLines, "  "+strings.ReplaceAll(sim.Clip(rep.Detail, 1500), "\n", "\n  "))
 	}
 	for _, l := range knownLines {
 		fmt.Println(l)
@@ -930,6 +1102,21 @@ func cmdReplay(args []string) int {
 		fatal2("%v", err)
 	}
 	defer w.stop()
+	if rep.Oracle == "order-independence" {
+		_, alone, e1 := r.evalAfter(bin, false, nil, rep.Tape, true)
+		_, after, e2 := r.evalAfter(bin, false, rep.Prelude, rep.Tape, true)
+		if e1 != nil || e2 != nil || alone == nil || after == nil {
+			fatal2("replay failed: %v %v", e1, e2)
+		}
+		fmt.Printf("case:\n%s\nalone:              event_hash=%s\nafter %d earlier runs: event_hash=%s\n", alone.Sample, alone.EventHash, len(rep.Prelude), after.EventHash)
+		if alone.EventHash != after.EventHash {
+			fmt.Printf("reproduced: oracle=%s key=%s\n%s\n", rep.Oracle, rep.Key, rep.Detail)
+			fmt.Printf("VIOLATION property=%s replay=%s\n", rep.Property, args[0])
+			return 1
+		}
+		fmt.Printf("not reproduced: the run behaves the same alone and after its prelude on this tree\n")
+		return 0
+	}
 	for _, p := range rep.Prelude {
 		if _, _, err := r.evalTape(w, p, false); err != nil {
 			fatal2("prelude: %v", err)
